@@ -29,36 +29,50 @@ fn run_one(log: &mut Log, tag: &str, text: &[u8], via: u32) {
         Some(w) => w,
         None => return,
     };
-    // queries go to the object, a clone, or a serde round trip through JSON
-    let wm = match via {
+    // queries go to the object, or are split between it and a copy made mid-history (clone, serde round
+    // trip through JSON, clone_from into a used matrix of another text)
+    let orig = wm;
+    let mut copy: Option<WaveletMatrix> = None;
+    match via {
         1 => {
-            let mut c: Option<WaveletMatrix> = None;
             log.call("clone", json!({}), || {
-                c = Some(wm.clone());
+                copy = Some(orig.clone());
                 json!({})
             });
             log.oblige("wm_clone_queried");
-            match c {
-                Some(c) => c,
-                None => return,
-            }
         }
         2 => {
-            let mut c: Option<WaveletMatrix> = None;
             log.call("serde", json!({}), || {
-                let text = serde_json::to_string(&wm).expect("serialize");
-                c = Some(serde_json::from_str(&text).expect("deserialize"));
+                let text = serde_json::to_string(&orig).expect("serialize");
+                copy = Some(serde_json::from_str(&text).expect("deserialize"));
                 json!({"len": text.len()})
             });
             log.oblige("wm_serde_roundtrip_queried");
-            match c {
-                Some(c) => c,
-                None => return,
-            }
         }
-        _ => wm,
-    };
-    for &c in SYMS.iter() {
+        3 => {
+            log.call("clone_from", json!({}), || {
+                let mut used = WaveletMatrix::new(b"ACGTN$$NTGCA");
+                let _ = used.rank(b'G', 7);
+                used.clone_from(&orig);
+                copy = Some(used);
+                json!({})
+            });
+            log.oblige("wm_clone_from_into_used_object");
+        }
+        _ => {}
+    }
+    if via != 0 && copy.is_none() {
+        return;
+    }
+    let mask = (n * 5 + text[0] as usize) % 64;
+    if via != 0 && mask != 0 && mask != 63 {
+        log.oblige("wm_original_and_copy_both_continue");
+    }
+    for (ci, &c) in SYMS.iter().enumerate() {
+        let wm: &WaveletMatrix = match &copy {
+            Some(cp) if (mask >> ci) & 1 == 0 => cp,
+            _ => &orig,
+        };
         log.call("rank", json!({"c": c}), || {
             let v: Vec<u64> = (0..n as u64).map(|p| wm.rank(c, p)).collect();
             json!({ "v": v })
@@ -86,7 +100,7 @@ pub fn drive(log: &mut Log) {
             if !log.mine(case) {
                 continue;
             }
-            run_one(log, "ex", t, (case % 3) as u32);
+            run_one(log, "ex", t, (case % 4) as u32);
         }
         cur = nxt;
     }
@@ -123,7 +137,7 @@ pub fn drive(log: &mut Log) {
                 }
                 _ => vec![*rng.pick(SYMS); n],
             };
-            run_one(log, "rd", &text, (case % 3) as u32);
+            run_one(log, "rd", &text, (case % 4) as u32);
         }
     }
 }
